@@ -197,7 +197,8 @@ Record revision := {
   fix_strict_order : bool;       (* ordering comparisons only within one value kind *)
   fix_slice_clamp : bool;        (* SearchQuery::slice clamps instead of panicking *)
   fix_edge_origin : bool;        (* a search from an edge does not chain the origin's siblings *)
-  fix_visited_chain : bool       (* an already visited edge met in a node's edge list does not cut the list *)
+  fix_visited_chain : bool;      (* an already visited edge met in a node's edge list does not cut the list *)
+  fix_nodes_ids_alias : bool     (* insert nodes with ids + aliases re-aliases through insert_alias (undoable) *)
 }.
 
 Section Rev.
